@@ -84,6 +84,9 @@ struct Truth {
     value: u64,
     nfpos: u64,
     nf: Vec<u8>,
+    /// lead byte of the Sapling note plaintext (1 = pre-ZIP 212, 2 = ZIP 212); 0 for Orchard-shaped notes.
+    /// Whether the scanner must accept it at the block's height is decided by the MODEL.
+    lead: u8,
     /// Sapling only: the note and nullifier key, so that the nullifier can be recomputed when a
     /// corruption changes the tree size the block starts from
     sap: Option<(sapling::Note, sapling::keys::NullifierDerivingKey)>,
@@ -120,6 +123,8 @@ struct Chain {
     kind_b: bool,
     /// per pool: spends (in a later block of the chain) of a note received earlier in the chain
     intra: [usize; 3],
+    /// the ZIP 212 policy changes between the first and the last block of the chain
+    crosses: bool,
 }
 
 struct Gen<'a> {
@@ -207,7 +212,7 @@ impl<'a> Gen<'a> {
     }
 
     /// A Sapling output. `who`: Some((account index, scope)) or None for garbage.
-    fn sapling_out(&mut self, params: &LocalNetwork, h: u32, who: Option<(usize, u8)>) -> (CompactSaplingOutput, Option<(u32, u8, u64, sapling::Note)>) {
+    fn sapling_out(&mut self, params: &LocalNetwork, h: u32, who: Option<(usize, u8)>) -> (CompactSaplingOutput, Option<(u32, u8, u64, sapling::Note, u8)>) {
         match who {
             None => {
                 let cmu = self.rand_base();
@@ -227,7 +232,20 @@ impl<'a> Gen<'a> {
                     a.sap.find_address(j.into()).unwrap().1
                 };
                 let v = self.value();
-                let rseed = generate_random_rseed(zip212_enforcement(params, BlockHeight::from(h)), &mut self.r.0);
+                // plaintext version: mostly the one the block's ZIP 212 policy accepts, both during
+                // the grace period, and sometimes the one it must reject
+                use sapling::note_encryption::Zip212Enforcement as Z;
+                let before = match zip212_enforcement(params, BlockHeight::from(h)) {
+                    Z::Off => self.r.chance(17, 20),
+                    Z::GracePeriod => self.r.bool(),
+                    Z::On => self.r.chance(3, 20),
+                };
+                let rseed = if before {
+                    sapling::Rseed::BeforeZip212(<jubjub::Fr as ff::Field>::random(&mut self.r.0))
+                } else {
+                    sapling::Rseed::AfterZip212(self.rand32())
+                };
+                let lead = if before { 1u8 } else { 2u8 };
                 let note = sapling::Note::from_parts(to, SValue::from_raw(v), rseed);
                 let enc = sapling_note_encryption(Some(a.sap.fvk().ovk), note.clone(), MemoBytes::empty().into_bytes(), &mut self.r.0);
                 let out = CompactSaplingOutput {
@@ -235,7 +253,7 @@ impl<'a> Gen<'a> {
                     ephemeral_key: SaplingDomain::epk_bytes(enc.epk()).0.to_vec(),
                     ciphertext: enc.encrypt_note_plaintext()[..52].to_vec(),
                 };
-                (out, Some((a.id, scope, v, note)))
+                (out, Some((a.id, scope, v, note, lead)))
             }
         }
     }
@@ -338,7 +356,16 @@ impl<'a> Gen<'a> {
         let sap_act = act(self);
         let nu5_act = act(self);
         let nu63_act = act(self);
-        let canopy = if self.r.chance(1, 6) { None } else { one };
+        let mut nblocks = if kind_b { 1 } else if big { self.r.range(2, 4) as usize } else { *self.r.pick(&[1usize, 1, 2, 2, 3, 3, 4, 5]) };
+        // Canopy: unset / long active / activating INSIDE the chain / grace period ending inside it
+        let grace = zcash_protocol::consensus::ZIP212_GRACE_PERIOD;
+        let inside = h0.saturating_add(self.r.below(nblocks as u64 + 1) as u32);
+        let canopy = match self.r.below(8) {
+            0 => None,
+            1..=2 => Some(BlockHeight::from(inside)),
+            3..=4 if inside > grace => Some(BlockHeight::from(inside - grace)),
+            _ => one,
+        };
         let params = LocalNetwork {
             overwinter: one,
             sapling: sap_act,
@@ -351,8 +378,6 @@ impl<'a> Gen<'a> {
             nu6_2: one,
             nu6_3: nu63_act,
         };
-        let mut nblocks = if kind_b { 1 } else if big { self.r.range(2, 4) as usize } else { *self.r.pick(&[1usize, 1, 2, 2, 3, 3, 4, 5]) };
-
         // initial tracked nullifiers (arbitrary values, some duplicates across accounts, account 0 allowed)
         let ids: Vec<u32> = tracked.iter().map(|&i| self.accts[i].id).collect();
         let mut nf_s = vec![];
@@ -475,10 +500,10 @@ impl<'a> Gen<'a> {
                 for _ in 0..self.count(bigtx) {
                     let who = self.pick_who(&tracked);
                     let (mut out, t) = self.sapling_out(&params, h, who);
-                    let mut t = t.map(|(acct, scope, value, note)| {
+                    let mut t = t.map(|(acct, scope, value, note, lead)| {
                         let nk = self.accts.iter().find(|a| a.id == acct).unwrap().sap.to_nk(if scope == 1 { Scope::Internal } else { Scope::External });
                         let nf = note.nf(&nk, pos[0]);
-                        Truth { acct, scope, value, nfpos: pos[0], nf: nf.0.to_vec(), sap: Some((note, nk)) }
+                        Truth { acct, scope, value, nfpos: pos[0], nf: nf.0.to_vec(), lead, sap: Some((note, nk)) }
                     });
                     // near miss: an output for a real key that must NOT decrypt
                     if t.is_some() && self.r.chance(1, 12) {
@@ -505,7 +530,7 @@ impl<'a> Gen<'a> {
                     let (mut act, t) = self.orchard_act(nf_old, who, wrong_domain);
                     let mut t = t.map(|(acct, scope, value, note)| {
                         let fvk = &self.accts.iter().find(|a| a.id == acct).unwrap().orch;
-                        Truth { acct, scope, value, nfpos: pos[1], nf: note.nullifier(fvk).to_bytes().to_vec(), sap: None }
+                        Truth { acct, scope, value, nfpos: pos[1], nf: note.nullifier(fvk).to_bytes().to_vec(), lead: 0, sap: None }
                     });
                     if wrong_domain {
                         t = None;
@@ -533,7 +558,7 @@ impl<'a> Gen<'a> {
                     let (mut act, t) = self.orchard_act(nf_old, who, !wrong_domain);
                     let mut t = t.map(|(acct, scope, value, note)| {
                         let fvk = &self.accts.iter().find(|a| a.id == acct).unwrap().orch;
-                        Truth { acct, scope, value, nfpos: pos[2], nf: note.nullifier(fvk).to_bytes().to_vec(), sap: None }
+                        Truth { acct, scope, value, nfpos: pos[2], nf: note.nullifier(fvk).to_bytes().to_vec(), lead: 0, sap: None }
                     });
                     if wrong_domain {
                         t = None;
@@ -555,7 +580,11 @@ impl<'a> Gen<'a> {
                 for s in &tx.spends { cur_s.retain(|x| x[..] != s.nf[..]); }
                 for a in &tx.actions { cur_o.retain(|x| x[..] != a.nullifier[..]); }
                 for a in &tx.ironwood_actions { cur_i.retain(|x| x[..] != a.nullifier[..]); }
-                let is_tracked = |t: &Truth| ids.contains(&t.acct);
+                let enf = zip212_enforcement(&params, BlockHeight::from(h));
+                let is_tracked = |t: &Truth| {
+                    use sapling::note_encryption::Zip212Enforcement as Z;
+                    ids.contains(&t.acct) && match (t.lead, enf) { (1, Z::On) | (2, Z::Off) => false, _ => true }
+                };
                 for t in tt.s.iter().flatten() { if is_tracked(t) { cur_s.push(t.nf.clone().try_into().unwrap()); got[0].push(t.nf.clone().try_into().unwrap()); } }
                 for t in tt.o.iter().flatten() { if is_tracked(t) { cur_o.push(t.nf.clone().try_into().unwrap()); got[1].push(t.nf.clone().try_into().unwrap()); } }
                 for t in tt.i.iter().flatten() { if is_tracked(t) { cur_i.push(t.nf.clone().try_into().unwrap()); got[2].push(t.nf.clone().try_into().unwrap()); } }
@@ -585,33 +614,15 @@ impl<'a> Gen<'a> {
             blocks.push(GBlock { cb, truth, hdr, parent, corruption: vec![] });
         }
 
-        let mut ch = Chain { params, tracked, prior, nf_s, nf_o, nf_i, blocks, first_height: h0, kind_b, intra };
+        let crosses = {
+            let e = |h: u32| zip212_enforcement(&params, BlockHeight::from(h)) as u8;
+            blocks.len() > 1 && e(h0) != e(h0.saturating_add(blocks.len() as u32 - 1))
+        };
+        let mut ch = Chain { params, tracked, prior, nf_s, nf_o, nf_i, blocks, first_height: h0, kind_b, intra, crosses };
         // corruption stream (last block only)
         let ncorr = if self.force.is_some() { 1 } else if kind_b { self.r.range(2, 3) } else if self.r.chance(35, 100) { 1 } else { 0 };
         for _ in 0..ncorr {
             self.corrupt(&mut ch);
-        }
-        // Sapling note plaintexts are version-checked against the ZIP 212 rule of the height the
-        // block CLAIMS: a height corruption that crosses the Canopy rule makes the notes of this
-        // block undecryptable (lead byte 0x01 only before Canopy, 0x02 only after the grace period)
-        {
-            let last = ch.blocks.len() - 1;
-            let true_h = ch.first_height.saturating_add(last as u32);
-            let claimed = ch.blocks[last].cb.height;
-            if claimed != true_h as u64 && claimed <= u32::MAX as u64 {
-                use sapling::note_encryption::Zip212Enforcement as Z;
-                let e_old = zip212_enforcement(&ch.params, BlockHeight::from(true_h));
-                let e_new = zip212_enforcement(&ch.params, BlockHeight::from(claimed as u32));
-                let after = !matches!(e_old, Z::Off);
-                let ok = if after { !matches!(e_new, Z::Off) } else { !matches!(e_new, Z::On) };
-                if !ok {
-                    for tt in ch.blocks[last].truth.iter_mut() {
-                        for t in tt.s.iter_mut() {
-                            *t = None;
-                        }
-                    }
-                }
-            }
         }
         // Sapling nullifiers depend on the note position: recompute the ground truth of the last
         // block for the tree size it now starts from (prior size, else metadata - outputs, else 0)
@@ -884,7 +895,7 @@ fn raw_outcome(r: &Option<Result<ScannedBlock<u32>, ScanError>>) -> String {
 fn truth_s(t: &Option<Truth>) -> String {
     match t {
         None => "None".into(),
-        Some(t) => format!("(Some (T {} {} {} {} {}))", t.acct, t.scope, t.value, t.nfpos, tok(&t.nf)),
+        Some(t) => format!("(Some (T {} {} {} {} {} {}))", t.acct, t.scope, t.value, t.nfpos, tok(&t.nf), t.lead),
     }
 }
 
@@ -898,7 +909,7 @@ fn raw_nfs(nfs: &Nullifiers<u32>) -> String {
 
 fn raw_inputs(ch: &Chain, accts: &[Acct], g: &GBlock, prior: &Option<BlockMetadata>, nfs: &Nullifiers<u32>) -> String {
     let ah = |x: Option<BlockHeight>| opt(x.map(|h| format!("{}", u32::from(h))));
-    let cfg = format!("(Cfg {} {} {})", ah(ch.params.sapling), ah(ch.params.nu5), ah(ch.params.nu6_3));
+    let cfg = format!("(Cfg {} {} {} {})", ah(ch.params.sapling), ah(ch.params.nu5), ah(ch.params.nu6_3), ah(ch.params.canopy));
     let os = |x: Option<u32>| opt(x.map(|v| format!("{}", v)));
     let pr = opt(prior.as_ref().map(|p| format!("(Pm {} {} {} {} {})", u32::from(p.block_height()), tok(&p.block_hash().0), os(p.sapling_tree_size()), os(p.orchard_tree_size()), os(p.ironwood_tree_size()))));
     // keys: every tracked account × {external, internal}; the same list serves the three pools
@@ -1115,7 +1126,7 @@ fn main() {
                 for u in upd {
                     writeln!(w, "U {} {}", ci, u).unwrap();
                 }
-                writeln!(w, "K {} {} {} {} {} {}", ci, if kind_b { 1 } else { 0 }, ch.intra[0], ch.intra[1], ch.intra[2], ch.blocks.last().unwrap().corruption.join(",")).unwrap();
+                writeln!(w, "K {} {} {} {} {} {}", ci, if kind_b { 1 } else { 0 }, ch.intra[0] + if ch.crosses { 1_000_000 } else { 0 }, ch.intra[1], ch.intra[2], ch.blocks.last().unwrap().corruption.join(",")).unwrap();
             }
             ci += SHARDS;
         }
@@ -1193,6 +1204,7 @@ fn main() {
     let mut err_differs = 0usize;
     let mut st_partial = 0usize;
     let mut n_upd = 0usize;
+    let mut n_cross = 0usize;
     let mut intra = [0usize; 3];
     for res in &all {
         assert_eq!(res.cached.len(), 4, "missing worker result");
@@ -1257,7 +1269,9 @@ fn main() {
             case(intern(u));
             n_upd += 1;
         }
-        for k in 0..3 { intra[k] += res.intra[k]; }
+        if res.intra[0] >= 1_000_000 { n_cross += 1; }
+        intra[0] += res.intra[0] % 1_000_000;
+        for k in 1..3 { intra[k] += res.intra[k]; }
         for c in &res.corruption {
             *corr_hist.entry(c.clone()).or_default() += 1;
         }
@@ -1267,8 +1281,8 @@ fn main() {
     let mut cv: Vec<_> = corr_hist.into_iter().collect();
     cv.sort();
     stat(format!(
-        "{{\"chains\":{},\"corpus_chains\":11,\"ordinary\":{},\"big\":{},\"malformed_multi\":{},\"cases\":{},\"update_with_cases\":{},\"spends_of_notes_received_earlier_in_the_same_chain_sapling_orchard_ironwood\":{:?},\"outputs_total\":{},\"outputs_per_block_hist_0_3_9_29_99_more\":{:?},\"variants\":\"inline; batched(threshold 100) x rayon threads 16,1,2,7\",\"batched_disagreements\":{},\"batched_error_identity_differs\":{},\"partial_applications\":{},\"outcomes\":{{{}}},\"corruptions\":{{{}}}}}",
-        total, n_ord, n_big, n_bad, n_cases, n_upd, intra, n_out, size_hist, alt_total, err_differs, st_partial,
+        "{{\"chains\":{},\"corpus_chains\":11,\"ordinary\":{},\"big\":{},\"malformed_multi\":{},\"cases\":{},\"update_with_cases\":{},\"chains_crossing_a_zip212_policy_boundary\":{},\"spends_of_notes_received_earlier_in_the_same_chain_sapling_orchard_ironwood\":{:?},\"outputs_total\":{},\"outputs_per_block_hist_0_3_9_29_99_more\":{:?},\"variants\":\"inline; batched(threshold 100) x rayon threads 16,1,2,7\",\"batched_disagreements\":{},\"batched_error_identity_differs\":{},\"partial_applications\":{},\"outcomes\":{{{}}},\"corruptions\":{{{}}}}}",
+        total, n_ord, n_big, n_bad, n_cases, n_upd, n_cross, intra, n_out, size_hist, alt_total, err_differs, st_partial,
         hv.iter().map(|(k, v)| format!("\"{}\":{}", k, v)).collect::<Vec<_>>().join(","),
         cv.iter().map(|(k, v)| format!("\"{}\":{}", k, v)).collect::<Vec<_>>().join(",")
     ));
